@@ -136,6 +136,10 @@ class RuleResult:
 
     def need(self, floor, what):
         """Fail closed if fewer instances than counted by hand on the reference tree."""
+        # counted on the reference tree; a margin (a tenth, at least two, for counts above ten) lets a refactor remove or merge
+        # a few public items without tripping the vacuity guard, which exists to notice anchors that matched (almost) nothing
+        if floor > 10:
+            floor = floor - max(2, floor // 10)
         self.floor = floor
         if len(self.instances) < floor:
             self.violations.append(Violation(
